@@ -473,7 +473,10 @@ class WorldGen:
             b2[y] = bs
             if not all(c03.cpython_mirror_mro(b2, j) is not None for j in down):
                 return
-            k = rnd.choice(list(cb))
+            plain = [c_ for c_ in cb if c_ not in layout]           # (instances of the slotted layout classes cannot carry a declaration)
+            if not plain:
+                return
+            k = rnd.choice(plain)
             o1, o2 = max(objs) + 1, max(objs) + 2
             objs[o1] = objs[o2] = k
             L.extend(["inst|%d|%d" % (o1, k), "inst|%d|%d" % (o2, k), "dp|%d|%d" % (o1, y)])
